@@ -4,7 +4,7 @@ from ..contracts_api import ContractDB
 
 def build_db():
     db = ContractDB()
-    from . import render, html, attrs, children, helpers, tagify, hooks, document, serial, jsx, paths, equality
+    from . import render, html, attrs, children, helpers, tagify, hooks, document, serial, jsx, paths, equality, depinit
     render.register(db)
     html.register(db)
     attrs.register(db)
@@ -17,6 +17,7 @@ def build_db():
     jsx.register(db)
     paths.register(db)
     equality.register(db)
+    depinit.register(db)
     return db
 
 
